@@ -27,6 +27,8 @@ pub struct SccSc {
 #[derive(Clone, Debug, Serialize, Deserialize, PartialEq)]
 pub enum EdgeChange {
     Add(usize, usize, u64),
+    /// try_connect(u, v): refused where an edge u->v exists
+    TryAdd(usize, usize, u64),
     /// disconnect(u, key v)
     Del(usize, usize),
     Isolate(usize),
@@ -249,6 +251,14 @@ fn run<F: Flavour>(sc: &SccSc, stats: &mut Stats) -> Option<Violation> {
                             edges.push((*u, *v, *e));
                         }
                     }
+                    EdgeChange::TryAdd(u, v, e) => {
+                        if members.contains(u) && members.contains(v) {
+                            match F::try_connect(&nodes[*u], &nodes[*v], EVal::new(*e)) {
+                                Ok(()) => edges.push((*u, *v, *e)),
+                                Err(_) => stats.inc("probe_try_connect_refused_between_scc_calls"),
+                            }
+                        }
+                    }
                     EdgeChange::Del(u, v) => {
                         if let Ok(val) = F::disconnect(&nodes[*u], *v) {
                             if let Some(p) = edges.iter().position(|x| x.2 == val.0) {
@@ -421,11 +431,25 @@ impl Engine for Scc {
                 let mut ph = Vec::new();
                 for _ in 0..rng.range(1, 4) {
                     match rng.below(10) {
-                        0..=3 => {
+                        0..=2 => {
                             next += 1;
                             let (u, v) = (rng.below(n), rng.below(n));
                             ph.push(EdgeChange::Add(u, v, next));
                             cur.push((u, v, next));
+                        }
+                        3 => {
+                            // try_connect, more often than not on a pair that is connected already
+                            next += 1;
+                            let (u, v) = if !cur.is_empty() && rng.chance(2, 3) {
+                                let (u, v, _) = cur[rng.below(cur.len())];
+                                (u, v)
+                            } else {
+                                (rng.below(n), rng.below(n))
+                            };
+                            ph.push(EdgeChange::TryAdd(u, v, next));
+                            if !cur.iter().any(|x| x.0 == u && x.1 == v) {
+                                cur.push((u, v, next));
+                            }
                         }
                         4..=8 if !cur.is_empty() => {
                             let (u, v, _) = cur[rng.below(cur.len())];
@@ -497,6 +521,7 @@ impl Engine for Scc {
                             .map(|c| {
                                 Some(match c {
                                     EdgeChange::Add(u, v, e) => EdgeChange::Add(remap(*u)?, remap(*v)?, *e),
+                                    EdgeChange::TryAdd(u, v, e) => EdgeChange::TryAdd(remap(*u)?, remap(*v)?, *e),
                                     EdgeChange::Del(u, v) => EdgeChange::Del(remap(*u)?, remap(*v)?),
                                     EdgeChange::Isolate(u) => EdgeChange::Isolate(remap(*u)?),
                                     EdgeChange::RemoveMember(u) => EdgeChange::RemoveMember(remap(*u)?),
